@@ -99,6 +99,32 @@ def judge_stream(ctx, data, kind, arrays=True):
               'paths-differ', case,
               lambda: {'parse_all': [m.hex() for m in outs[0]][:8],
                        'bytewise': [m.hex() for m in out3][:8]})
+    # every way of handing over the whole stream at once x every kind of iterable (one combination per
+    # stream, rotating with the stream's content)
+    import collections
+    conts = (('list', list), ('tuple', tuple), ('bytes', bytes), ('bytearray', bytearray), ('generator', lambda d: (b for b in d)),
+             ('iter', lambda d: iter(list(d))), ('map', lambda d: map(int, d)), ('memoryview', lambda d: memoryview(bytes(d))),
+             ('deque', collections.deque))
+    entries = ('parse_all', 'Parser(data)', 'parse')
+    h = sum((i + 1) * b for i, b in enumerate(data)) + len(data)
+    for j in (0,):
+        ename = entries[h % 3]
+        cname, conv = conts[(h // 3) % len(conts)]
+        try:
+            if ename == 'parse_all':
+                got = mido.parse_all(conv(data))
+            elif ename == 'Parser(data)':
+                got = list(Parser(conv(data)))
+            else:
+                first = mido.parse(conv(data))
+                got = [first] if first is not None else []
+            want = outs[0][:1] if ename == 'parse' else outs[0]
+            ctx.check('same result through every entry point', got == want, f'entry-differs:{ename}:{cname}', case,
+                      lambda: {'entry': ename, 'container': cname, 'got': [m.hex() for m in got][:8],
+                               'want': [m.hex() for m in want][:8]})
+        except Exception as exc:
+            ctx.check('no exception', False, f'entry:{ename}:{cname}:{type(exc).__name__}', case,
+                      f'{ename}({cname}): {type(exc).__name__}: {exc}')
     # the same stream in two chunks of several container types, with the first chunk's
     # messages taken by a for-loop that is abandoned after its first message
     n = len(data)
@@ -252,6 +278,29 @@ def run(ctx):
                 ctx.check('no exception', False, f'two-parsers:{type(exc).__name__}', case2, str(exc))
             ctx.nontrivial(('two', tuple(d1), tuple(d2)))
             n += 1
+            # ... and one parser fed and read INSIDE the other's feed() call (the bytes of the first come
+            # from a generator that, at some point, runs the second parser)
+            for at in sorted({0, len(d1) // 3, len(d1) // 2, max(len(d1) - 1, 0)}):
+                case3 = {'kind': 'nested-parsers', 'a': d1, 'b': d2, 'at': at}
+                try:
+                    p1, p2 = Parser(), Parser()
+                    g2 = []
+
+                    def source():
+                        for i, b in enumerate(d1):
+                            if i == at:
+                                p2.feed(bytes(d2))
+                                g2.extend(p2)
+                            yield b
+                    p1.feed(source())
+                    g1 = list(p1)
+                    ctx.check('two live parsers are independent', g1 == w1 and g2 == w2 and not p1.pending() and not p2.pending(),
+                              'parser-inside-feed', case3,
+                              lambda: {'a': [m.hex() for m in g1][:6], 'a_alone': [m.hex() for m in w1][:6],
+                                       'b': [m.hex() for m in g2][:6], 'b_alone': [m.hex() for m in w2][:6]})
+                except Exception as exc:
+                    ctx.check('no exception', False, f'nested-parsers:{type(exc).__name__}', case3, f'{type(exc).__name__}: {exc}')
+                n += 1
     # size ladders: long runs of data bytes / long sysex (status bytes are rare here)
     sizes = [253, 254, 255, 256, 257, 1023, 1024, 1025, 4095, 4096, 4097, 65535, 65536, 65537, 70000]
     for si, ln in enumerate(sizes):
